@@ -1034,7 +1034,7 @@ func runC17(o *opts) error {
 			rounds = 3
 		}
 		for round := 0; round < rounds; round++ {
-			for _, mode := range []string{"plain", "batch", "snapshot", "rootbucket", "snapintx", "nested", "listeners", "metadata"} {
+			for _, mode := range []string{"plain", "batch", "snapshot", "rootbucket", "snapintx", "nested", "listeners", "metadata", "accessors", "overlap"} {
 				cases.line("R %s %d", mode, ms)
 				impl.line("%s", c17RaceChild(mode, ms, o.seed+int64(round), o.out))
 				stats["race_"+mode]++
@@ -1057,6 +1057,9 @@ type c17RaceResult struct {
 	Errors   []string `json:"errors"`
 	Metadata []string `json:"metadata"` // "snapid ..." / "timeline ...": stale or foreign metadata (mode metadata)
 	Polls    int64    `json:"polls"`
+	Calls    int64    `json:"accessor_calls,omitempty"` // mode accessors: Db accessor calls made inside transactions
+	Overlap  []string `json:"overlap,omitempty"`        // mode overlap: what went wrong with two overlapping restores
+	Pairs    [3]int64 `json:"overlap_pairs,omitempty"`  // mode overlap: pairs run / really overlapping / of those with a known order
 	Stuck    string   `json:"stuck"`
 }
 
@@ -1101,6 +1104,10 @@ func c17RaceChild(mode string, ms int, seed int64, out string) string {
 	switch {
 	case res.Stuck != "":
 		return "R stuck " + hxs(res.Stuck)
+	case len(res.Overlap) > 0:
+		return "R overlap " + hxs(res.Overlap[0])
+	case mode == "overlap" && res.Pairs[1] == 0:
+		return "R idle"
 	case len(res.Mixtures) > 0:
 		return "R mixture " + hxs(res.Mixtures[0])
 	case len(res.Metadata) > 0:
@@ -1179,6 +1186,8 @@ func runC17Race(o *opts) error {
 		return err
 	}
 	res := &c17RaceResult{Mode: mode}
+	acc := newC17aState(dir) // mode accessors (c17_access.go)
+	ovl := &c17oState{}      // mode overlap (c17_access.go)
 	var snaps [][]byte
 	var snapIds []string
 	for g := 1; g <= 3; g++ {
@@ -1235,12 +1244,18 @@ func runC17Race(o *opts) error {
 			var vals []uint64
 			var e error
 			switch {
-			case id%2 == 0: // reader
+			case id%2 == 0 || mode == "overlap": // reader
 				e = db.View(func(tx *bbolt.Tx) error {
 					if mode == "rootbucket" {
 						if _, rerr := db.RootBucket(tx); rerr != nil {
 							return rerr
 						}
+					}
+					if mode == "accessors" {
+						return acc.c17aBody(db, tx, "Db.View", id, n, func() (verr error) {
+							vals, verr = c17RaceValue(tx)
+							return verr
+						})
 					}
 					var verr error
 					vals, verr = c17RaceValue(tx)
@@ -1282,6 +1297,19 @@ func runC17Race(o *opts) error {
 					return verr
 				}
 				switch {
+				case mode == "accessors":
+					kind := []string{"Db.Update", "Db.Batch", "nested Db.Update"}[n%3]
+					abody := func(ctx boltz.MutateContext) error {
+						return acc.c17aBody(db, ctx.Tx(), kind, id, n, func() error { return body(ctx) })
+					}
+					switch n % 3 {
+					case 0:
+						e = db.Update(nil, abody)
+					case 1:
+						e = db.Batch(nil, abody)
+					default:
+						e = db.Update(nil, func(ctx boltz.MutateContext) error { return db.Update(ctx, abody) })
+					}
 				case mode == "batch":
 					e = db.Batch(nil, body)
 				case mode == "nested":
@@ -1341,6 +1369,9 @@ func runC17Race(o *opts) error {
 			atomic.AddInt64(&lsDone, 1)
 		})
 	}
+	if mode == "overlap" {
+		db.AddRestoreListener(func() { atomic.AddInt64(&ovl.lsRan, 1) })
+	}
 	for i := 0; i < 6; i++ {
 		go worker(i)
 	}
@@ -1356,6 +1387,24 @@ func runC17Race(o *opts) error {
 				}()
 				data := snaps[g%len(snaps)]
 				atomic.AddInt64(&restoreStarted, 1)
+				if mode == "overlap" {
+					a, b := g%len(snaps), (g+1+g/len(snaps)%2)%len(snaps)
+					ran0 := atomic.LoadInt64(&ovl.lsRan)
+					returned, aLast := ovl.c17oPair(db, snaps, a, b, g, report)
+					if returned < 2 {
+						atomic.StoreInt32(&stop, 1) // a restore panicked (reported): the handle is not usable any more
+						return
+					}
+					ovl.c17oVerdict(db, dir, snapIds, a, b, aLast, report)
+					for w := 0; w < 500 && atomic.LoadInt64(&ovl.lsRan) < ran0+2; w++ {
+						time.Sleep(10 * time.Millisecond)
+					}
+					if got := atomic.LoadInt64(&ovl.lsRan) - ran0; got != 2 {
+						report("overlap", fmt.Sprintf("two overlapping RestoreFromReader calls (snapshots %d and %d) have both returned; the restore listener ran %d times instead of twice", a+1, b+1, got))
+					}
+					atomic.AddInt64(&restores, 1)
+					return
+				}
 				if mode == "metadata" {
 					// a snapshot that takes a while to arrive: many small reads, the scheduler invited in between
 					sc := c17xScript{flav: "r", length: len(data), failAt: -1, eofd: g%2 == 1, rest: []int{997, 4096, 2048, 8191}[g%4]}
@@ -1406,8 +1455,14 @@ func runC17Race(o *opts) error {
 			last, lastChange = p, time.Now()
 		}
 		stalled := time.Since(lastChange)
+		if atomic.LoadInt32(&stop) != 0 {
+			break // mode overlap: a restore panicked, the run has ended itself
+		}
 		if stalled > 15*time.Second {
 			res.Stuck = fmt.Sprintf("mode %s: no transaction and no restore completed for 15s after %d transactions and %d restores", mode, atomic.LoadInt64(&txs), atomic.LoadInt64(&restores))
+			if mode == "accessors" {
+				res.Stuck += acc.inFlight()
+			}
 			break
 		}
 		// past the deadline: stop only while things are moving, otherwise wait for the watchdog's verdict
@@ -1432,10 +1487,14 @@ func runC17Race(o *opts) error {
 	res.Txs, res.Restores = atomic.LoadInt64(&txs), atomic.LoadInt64(&restores)
 	res.OldSeen, res.NewSeen = atomic.LoadInt64(&oldSeen), atomic.LoadInt64(&newSeen)
 	res.Polls = atomic.LoadInt64(&polls)
+	res.Calls = atomic.LoadInt64(&acc.calls)
+	res.Pairs = [3]int64{atomic.LoadInt64(&ovl.pairs), atomic.LoadInt64(&ovl.overlaps), atomic.LoadInt64(&ovl.ordered)}
 	for {
 		select {
 		case p := <-problems:
-			if p[0] == "mixture" {
+			if p[0] == "overlap" {
+				res.Overlap = append(res.Overlap, p[1])
+			} else if p[0] == "mixture" {
 				res.Mixtures = append(res.Mixtures, p[1])
 			} else if p[0] == "metadata" {
 				res.Metadata = append(res.Metadata, p[1])
